@@ -6,14 +6,14 @@ HARNESS = "broker"
 CONST_GROUPS = ["security", "message", "cipher", "license"]
 RULE = ("one case = one broker session: publishes with and without retain flag / ttl option / store permission on nested "
         "channels (ttl values 0, small, 2^32 and 2^32+5), last wills with retain, interleaved with later subscriptions with "
-        "and without load permission and every `last` value (0, 1, default, several, huge); the packets between SUBSCRIBE and "
+        "and without load permission, every `last` value (0, 1, default, several, huge) and from/until windows before, around and after the session's second; the packets between SUBSCRIBE and "
         "SUBACK are compared (as a multiset: all messages of a session fall into one or two seconds). non-trivial = distinct (op, answer)")
 TRUSTED = ["the broker's own publishes on stats/<node>/ (monitoring sink 'self', once a second, into the owner's contract) are not answers to a request and are dropped from the observables",
            "history lookup inside one session: 'the N most recently stored matching messages' (time windows, expiry and paging are C06's subject)",
            "in-memory badger as the store"]
 ASSUMPTIONS = ["requests are issued one at a time; messages never expire within a session (ttl >= 100 s or 0)"]
 CLAIM = {
-    "text": "Lean 4 theorems over the broker model for every request history and authorizer: a publish or last will adds exactly one stored entry iff (ttl > 0 or retain) and the key has the store permission, with the requested ttl (retain = configured retention), under the publisher's contract and channel (stored_iff); an accepted subscription with load permission is sent exactly the last N stored matching messages (N from `last`, default 1, 0 none) before its SUBACK, and none without load permission (replay_exact). Tied to /repo by the differential broker run.",
+    "text": "Lean 4 theorems over the broker model for every request history and authorizer: a publish or last will adds exactly one stored entry iff (ttl > 0 or retain) and the key has the store permission, with the requested ttl (retain = configured retention), under the publisher's contract and channel (stored_iff); an accepted subscription with load permission is sent exactly the last N stored matching messages (N from `last`, default 1, 0 none) before its SUBACK, and none without load permission (replay_exact). Tied to /repo by the differential broker run. At history level (Spec/Retained.lean, Lemmas/StoreHistory.lean): after every well-formed history the model's store is exactly the log of accepted, storable publishes and fired wills of the specification (store_history_refines / _exact), the packets before the SUBACK of an accepted subscribe are exactly Spec.replay of that log (replay_history_exact), and an unstorable publish leaves no trace (unstored_never_replayed).",
     "note": "Trusted: Lean kernel; harness; single-second sessions for the store order.",
     "technique": "Lean 4 proof (store/replay characterisation on the broker step function) + differential correspondence check model vs. real broker",
 }
@@ -49,6 +49,15 @@ def session(rng):
             s.pub(c, rng.choice(["KA", "KA", "KS", "KN", "KL"]), chan(rng), b"m%d" % n, opts=opts, retain=rng.randrange(3) == 0)
         elif r < 8:
             opts = rng.choice([b"", b"", b"?last=0", b"?last=1", b"?last=2", b"?last=5", b"?last=100000", b"?last=x", b"?last=3&ttl=5"])
+            if rng.randrange(4) == 0:
+                # from/until window around, before or after the session's second
+                lo, hi = rng.choice([(-100000, 100000), (-200000, -100000), (100000, 200000), (-100000, None), (None, -100000), (None, 100000), (100000, None)])
+                w = []
+                if lo is not None:
+                    w.append(b"from=%d" % (s.now + lo))
+                if hi is not None:
+                    w.append(b"until=%d" % (s.now + hi))
+                opts = (opts + b"&" if opts else b"?") + b"&".join(w)
             ch = chan(rng, wild=rng.randrange(4) == 0)
             if rng.randrange(3) == 0:
                 ch = ch.split(b"/")[0] + b"/"            # parent channel: nested messages replayed
